@@ -49,10 +49,25 @@ func (s *Sim) Deliver(idx int, dup bool) {
 	s.deliver(f)
 }
 
+// Redeliver delivers a recently delivered flight once more (a network
+// duplicate arriving right behind the original).
+func (s *Sim) Redeliver(f *Flight) {
+	s.begin("Redeliver(#%d %s)", f.ID, shortMsg(f.M))
+	s.Stats.inc("net.dup")
+	s.Stats.inc("net.dup_recent")
+	s.deliver(f)
+}
+
 func (s *Sim) deliver(f *Flight) {
 	n := s.Nodes[f.To]
 	if n == nil || !n.Up {
 		return
+	}
+	if len(s.Net.Recent) == 0 || s.Net.Recent[len(s.Net.Recent)-1] != f {
+		s.Net.Recent = append(s.Net.Recent, f)
+		if len(s.Net.Recent) > 4 {
+			s.Net.Recent = s.Net.Recent[1:]
+		}
 	}
 	f.Deliveries++
 	if f.M.GetType() == pb.MsgSnap {
@@ -328,7 +343,9 @@ func (s *Sim) applyEntries(n *Node, ents []*pb.Entry) {
 			continue
 		}
 		if idx != n.SM.Applied+1 {
-			// gap: reported by the C08 monitor; the state machine cannot go on.
+			// a committed entry was dropped from the sequence handed to this node
+			s.Mon.viol([]string{"C01", "C08"}, "applied_sequence_gapless", "c01.sequence_gap",
+				"node %d is handed entry %d for application right after %d: entries in between were dropped from its committed sequence", n.ID, idx, n.SM.Applied)
 			panic(endCase{"state machine gap"})
 		}
 		if isConfEntry(e) {
